@@ -98,6 +98,16 @@ fn judge_files(files: &[(String, Vec<u8>)], t: &mut Tally, with_layouts: bool) -
     None
 }
 
+fn scale_sets() -> Vec<(String, Vec<(String, Vec<u8>)>)> {
+    let long_name: String = "長い名前".chars().cycle().take(150).collect(); // 300 Shift-JIS bytes
+    let mut v = Vec::new();
+    for n in [255usize, 256, 257, 65_535, 65_536, 70_001] {
+        v.push((format!("bodies of {} bytes", n), vec![("first".to_string(), body(0, n)), (long_name.clone(), body(1, 3)), ("last.bin".to_string(), body(2, n + 1))]));
+    }
+    v.push(("names of 254/255/256 bytes".to_string(), (0..3).map(|i| ("n".repeat(254 + i), body(i, 5 + i))).collect()));
+    v
+}
+
 fn explore(ctx: &Ctx) -> Outcome {
     let cases = all_cases();
     let mut total = cases
@@ -125,6 +135,15 @@ fn explore(ctx: &Ctx) -> Outcome {
         }
         layers.push(json!({"family": "many files", "files": n, "completed": true}));
     }
+    // scale: bodies and names beyond 8- and 16-bit sizes
+    for (tag, files) in scale_sets() {
+        total.cases += 1;
+        total.nontrivial += 1;
+        if let Some((sig, summary)) = judge_files(&files, &mut total, true) {
+            total.violate(format!("scale:{}", sig), format!("[{}] {}", tag, summary), json!({"scale": tag}));
+        }
+        layers.push(json!({"family": "scale", "case": tag, "completed": true}));
+    }
     total.sample(json!({"case": cases[cases.len() / 2]}));
     let mut o = total.into_outcome(
         "ALL ordered maps of 0..=3 files with distinct names from {\"\", a, FE9ArcTest1.bin, 日本} and lengths from {0,1,31,32,33,63,64,65} (position-dependent contents), plus archives of 255/256/4096 (65 535 thorough) files; oracles: parse(serialize(m)) == m in order, strict reference reader of the image (count, names, offsets, sizes, 32-byte alignment), and parse of all 16 conforming re-arrangements written by the reference builder (names before/after bodies, either order, gaps); non-trivial = non-empty map",
@@ -137,6 +156,9 @@ fn explore(ctx: &Ctx) -> Outcome {
 
 fn replay(_ctx: &Ctx, case: &Value) -> Vec<Violation> {
     let mut t = Tally::new();
+    if let Some(tag) = case["scale"].as_str() {
+        return scale_sets().into_iter().filter(|(t2, _)| t2 == tag).filter_map(|(_, files)| judge_files(&files, &mut t, true)).map(|(sig, summary)| Violation { sig: format!("scale:{}", sig), summary, case: case.clone() }).collect();
+    }
     let r = if let Some(n) = case["many"].as_u64() {
         let files: Vec<(String, Vec<u8>)> = (0..n as usize).map(|i| (format!("f{:05}", i), body(i % 4, i % 3))).collect();
         judge_files(&files, &mut t, false)
